@@ -40,6 +40,7 @@ func init() {
 			{ID: "C19.R2", Floor: 1, Run: c19r2, Text: "no background activity: no go statement, no channel operation, no select, no callee in sync or sync/atomic"},
 			{ID: "C19.R3", Floor: 1, Run: c13r2, Text: "no process-global mutable state in callees (= C13.R2 ban list: math/rand globals, os, time, …)"},
 			{ID: "C19.R4", Floor: 2, Run: c17r4, Text: "no adoption of caller-owned storage (= C17.R4): slices installed into the world by LoadEntities are freshly allocated"},
+			{ID: "C19.R5", Floor: 2, Run: paramSlicesNotGrown, Text: "caller-owned slices that the library appends to are copied first (= C12 rule): two objects built from one slice never write into each other"},
 			{ID: "C19.FX", Floor: 1, Run: c19fixture, Text: "fixture control: on checker/testdata/fixture R1/R2 report exactly the bad* functions for them"},
 		},
 	})
